@@ -1599,6 +1599,62 @@ PERL_PACK = {b"c": b"b", b"C": b"B", b"s": b"h", b"S": b"H", b"v": b"H",
              b"A": b"s", b"a": b"s"}
 
 
+def r6_status_offsets(program, rep):
+    """Each field of the per-core status block is decoded at the offset the
+    struct description gives for it (fields need not be back to back: the
+    block has array fields and padding)."""
+    fn = program.get(CTRL + ".get_processor_status")
+    T = Terms(fn)
+    val = None
+    for b in T.binds:
+        if b.mode == "assign" and b.value is not None and \
+                isinstance(b.value, ast.DictComp):
+            t = plain(T._bind_term(b))
+            if t[0] == "dictcomp" and t[1][0] == "pair":
+                val = t[1][2]
+                break
+    if val is None:
+        raise AnalysisError("get_processor_status: the decode of the status "
+                            "fields is not a dictionary comprehension; that "
+                            "form is not analysed")
+    ups = [st_ for st_ in subterms(val) if st_[0] == "call" and
+           st_[1][0] == "attr" and st_[1][1] == ("global", "struct") and
+           st_[1][2] in ("unpack", "unpack_from")]
+    if len(ups) != 1:
+        raise AnalysisError("get_processor_status: one struct.unpack per "
+                            "field expected")
+    u = ups[0]
+    fmt = u[2][0]
+    F = None
+    for st_ in subterms(fmt):
+        if st_[0] == "attr" and st_[2] == "pack_chars":
+            F = st_[1]
+    whole = any(st_[0] == "call" and st_[1][0] == "attr" and
+                st_[1][2] == "join" for st_ in subterms(fmt))
+    OFF = ("attr", F, "offset") if F is not None else None
+    at = None
+    if u[1][2] == "unpack_from":
+        at = u[2][2] if len(u[2]) > 2 else dict(u[3]).get("offset")
+    elif len(u[2]) == 2 and u[2][1][0] == "item" and \
+            u[2][1][2][0] == "slice":
+        at = u[2][1][2][1]
+    if F is None or (at is not None and at != OFF and not whole):
+        raise AnalysisError("get_processor_status: where a field is decoded "
+                            "from is computed in a form that is not "
+                            "analysed")
+    rep.check(not whole and at == OFF, "C14-R6", qual(fn), "every status "
+              "field is decoded with its own format at its own offset in "
+              "the block", construct="status field offset", node=fn,
+              fail="the status fields are not decoded at the offsets the "
+                   "struct description gives (%s): array fields and padding "
+                   "(e.g. the four-word pad before user0..user3) shift "
+                   "every field after them" % (
+                       "all fields are unpacked with one concatenated "
+                       "format, one item per field" if whole else
+                       "decoded from %s" % (show(at) if at else
+                                            "the start of the block")))
+
+
 def r6_pack_table(program, folder, rep):
     """The table translating the struct file's (Perl) field codes into
     struct-module codes keeps width and signedness: the status blocks are
@@ -1683,6 +1739,7 @@ def check(program, rep):
     rep.guard("C14-R5", r5_reservations, program, rep)
     rep.guard("C14-R5", r5_busy_states, program, folder, rep)
     rep.guard("C14-R6", r6_status, program, folder, rep)
+    rep.guard("C14-R6", r6_status_offsets, program, rep)
     rep.guard("C14-R6", r6_version, program, rep)
     rep.guard("C14-R6", r6_pack_table, program, folder, rep)
     return finish(rep, program, EXPLANATION, NOT_DECIDED,
